@@ -76,7 +76,7 @@ func c05Check(c scriptCase) []rep.Finding { return lockstep(c, nil).fs }
 
 func init() {
 	p := register(&Prop{ID: "C05", Level: "model_checking",
-		Rule: "explicit-state exploration of the real interpreter in lockstep with a reference model of the BSV script rules (certified on all 1438 node vectors of script_tests.json, verdict and error name): after every instruction the AfterStep snapshot (data and alt stack) must equal the reference's, and the final verdict must agree. Spaces: (1) operand grid: every opcode byte 0x00..0xff x every tuple of edge operands (arity 1 and 2 over the full edge set, arity 3 over a 12-value subset; shift counts 0..8n+1 for operand lengths 0..3) x both eras x covering flag sets, and all 512 subsets of the nine non-signature flags for the flag-sensitive opcodes, CLTV/CSV against 7x3 transaction contexts; (2) every byte string of length<=2 (quick) / <=3 (thorough) as locking script x 4 seed unlocking scripts x 2 eras (+MINIMALDATA); (3) breadth-first program exploration with canonical-state deduplication over a 15-symbol control-flow alphabet (incl. a non-minimal push) (depth 7/8) and a 51-symbol mixed alphabet (stack, alt, splice, bitwise, shift, arithmetic, hash opcodes, 8 pushes) (depth 3/4) from empty and seeded stacks; (3b) the same search on the unlocking side (control-flow alphabet + alt-stack, DUP, CODESEPARATOR; depth 4/5) against 7 fixed locking scripts, deciding what may cross the script boundary; (4) P2SH / limit templates; (5) option forms: ~3,800 cases (every opcode, P2SH spends, OP_RETURN/ELSE/big-number programs x 7 flag words) each requested through 6 equivalent option lists (WithAfterGenesis/WithForkID/WithP2SH before or after WithFlags(rest), the flag word split over two WithFlags calls, overlapping, followed by WithFlags(0), WithFlags before WithTx): verdict equals the reference's for the flag word. Scripts whose execution reaches a signature opcode are left to C06. states = distinct canonical machine states (stacks, condition stack, era+flags) seen in snapshots; transitions = instructions executed in lockstep; traces = executions compared",
+		Rule: "explicit-state exploration of the real interpreter in lockstep with a reference model of the BSV script rules (certified on all 1438 node vectors of script_tests.json, verdict and error name): after every instruction the AfterStep snapshot (data and alt stack) must equal the reference's, and the final verdict must agree. Spaces: (1) operand grid: every opcode byte 0x00..0xff x every tuple of edge operands (arity 1 and 2 over the full edge set, arity 3 over a 12-value subset; shift counts 0..8n+1 for operand lengths 0..3) x both eras x covering flag sets, and all 512 subsets of the nine non-signature flags for the flag-sensitive opcodes, CLTV/CSV against 7x3 transaction contexts; (2) every byte string of length<=2 (quick) / <=3 (thorough) as locking script x 4 seed unlocking scripts x 2 eras (+MINIMALDATA); (3) breadth-first program exploration with canonical-state deduplication over a 15-symbol control-flow alphabet (incl. a non-minimal push) (depth 7/8) and a 51-symbol mixed alphabet (stack, alt, splice, bitwise, shift, arithmetic, hash opcodes, 8 pushes) (depth 3/4) from empty and seeded stacks; (3b) the same search on the unlocking side (control-flow alphabet + alt-stack, DUP, CODESEPARATOR; depth 4/5) against 7 fixed locking scripts, deciding what may cross the script boundary; (4) P2SH / limit templates; (5) option forms: ~3,800 cases (every opcode, P2SH spends, OP_RETURN/ELSE/big-number programs x 7 flag words) each requested through 6 equivalent option lists and on an Engine value that executed other programs (other era, P2SH, early return, unbalanced conditional) before (WithAfterGenesis/WithForkID/WithP2SH before or after WithFlags(rest), the flag word split over two WithFlags calls, overlapping, followed by WithFlags(0), WithFlags before WithTx): verdict equals the reference's for the flag word. Scripts whose execution reaches a signature opcode are left to C06. states = distinct canonical machine states (stacks, condition stack, era+flags) seen in snapshots; transitions = instructions executed in lockstep; traces = executions compared",
 	})
 	NewSpace(p, "grid", c05Check)
 	NewSpace(p, "bytes", c05Check)
@@ -499,7 +499,8 @@ type c05OptCase struct {
 	// Form: 1 dedicated flag options (WithAfterGenesis/WithForkID/WithP2SH) first, the remaining
 	// flags through WithFlags; 2 the same in the opposite order; 3 the flag word split over two
 	// WithFlags calls; 4 dedicated options and the whole word; 5 the whole word then WithFlags(0);
-	// 6 WithFlags before WithTx
+	// 6 WithFlags before WithTx; 7/8 plain options on an Engine value that has executed other
+	// programs (other era, P2SH, OP_RETURN inside a branch, an unbalanced conditional) before
 	Form int `json:"option_form"`
 }
 
@@ -540,10 +541,21 @@ func c05OptCheck(c c05OptCase) (fs []rep.Finding) {
 		opts = append(append([]interpreter.ExecutionOptionFunc{withTx}, ded...), interpreter.WithFlags(F))
 	case 5:
 		opts = []interpreter.ExecutionOptionFunc{withTx, interpreter.WithFlags(F), interpreter.WithFlags(0)}
-	default:
+	case 6:
 		opts = []interpreter.ExecutionOptionFunc{interpreter.WithFlags(F), withTx}
+	default:
+		opts = []interpreter.ExecutionOptionFunc{withTx, interpreter.WithFlags(F)}
 	}
-	err := interpreter.NewEngine().Execute(opts...)
+	eng := interpreter.NewEngine()
+	switch c.Form {
+	case 7: // the Engine value has executed a pre-genesis P2SH spend before
+		rd := []byte{0x51}
+		_ = eng.Execute(interpreter.WithScripts(libScript(append(append([]byte{0xa9, 0x14}, refHash160(rd)...), 0x87)), libScript(minimalPush(rd))), interpreter.WithFlags(scriptflag.Bip16|scriptflag.VerifyCleanStack))
+	case 8: // ... a post-genesis conditional that ends through OP_RETURN inside a branch, and a failing run
+		_ = eng.Execute(interpreter.WithScripts(libScript([]byte{0x63, 0x51, 0x6b, 0x6a, 0x67, 0x00, 0x68}), libScript([]byte{0x51})), interpreter.WithAfterGenesis())
+		_ = eng.Execute(interpreter.WithScripts(libScript([]byte{0x63, 0x63}), libScript([]byte{0x51, 0x51})), interpreter.WithAfterGenesis())
+	}
+	err := eng.Execute(opts...)
 	if (err == nil) != ref.OK {
 		fs = append(fs, rep.F(fmt.Sprintf("options|form=%d|%s", c.Form, era(c.Flags)),
 			fmt.Sprintf("requested through option form %d the verdict is %s, the BSV rules for flag word %#x give ok=%v (%s)", c.Form, errText(err), c.Flags, ref.OK, ref.Err)))
@@ -580,7 +592,7 @@ func c05Options(r *rep.Run, sp *Space[c05OptCase], thorough bool) {
 	}
 	var cases []c05OptCase
 	for _, b := range base {
-		for form := 1; form <= 6; form++ {
+		for form := 1; form <= 8; form++ {
 			cases = append(cases, c05OptCase{b, form})
 		}
 	}
